@@ -96,6 +96,14 @@ func pipeHost(g *value.FunctionGenerator, rec func(stage, x int64)) {
 		}
 		return st.Get(0), nil
 	}, Args: 2, IsPure: false}.SetDescription("x", "k", "fails for x=k"))
+	g.AddStaticFunction("panicAt", funcGen.Function[value.Value]{Func: func(st funcGen.Stack[value.Value], cs []value.Value) (value.Value, error) {
+		if x, ok := st.Get(0).(value.Int); ok {
+			if k, ok := st.Get(1).(value.Int); ok && x == k {
+				panic(fmt.Sprintf("element %d panics", x))
+			}
+		}
+		return st.Get(0), nil
+	}, Args: 2, IsPure: false}.SetDescription("x", "k", "panics for x=k"))
 }
 
 func pipeRefInterp(rec func(stage, x int64)) *ref.Interp {
@@ -110,6 +118,14 @@ func pipeRefInterp(rec func(stage, x int64)) *ref.Interp {
 		return a[1], nil
 	}
 	in.Host["delay"] = func(in *ref.Interp, a []ref.Value) (ref.Value, *ref.Err) { return a[0], nil }
+	in.Host["panicAt"] = func(in *ref.Interp, a []ref.Value) (ref.Value, *ref.Err) {
+		if x, ok := a[0].(int64); ok {
+			if k, ok := a[1].(int64); ok && x == k {
+				return nil, &ref.Err{Msg: "element panics"}
+			}
+		}
+		return a[0], nil
+	}
 	in.Host["failAt"] = func(in *ref.Interp, a []ref.Value) (ref.Value, *ref.Err) {
 		if x, ok := a[0].(int64); ok {
 			if k, ok := a[1].(int64); ok && x == k {
@@ -145,6 +161,7 @@ func (c06) Run(c *wk.Case) {
 	}
 	if r.IntN(5) == 0 {
 		o.FailAt = r.IntN(o.MaxN + 1)
+		o.FailPanic = r.IntN(3) == 0
 	}
 	p := gen.GenPipe(r, o, true)
 	src, ok := safeSource(p.Node, ref.PrintOpts{})
